@@ -94,7 +94,10 @@ def r2(ctx, rep):
                 v = a["variant"]
                 key = f"value:{v}:{owner}"
                 if v in allowed:
-                    rep.check(owner in allowed[v], key, f"{owner} constructs sqlparser Value::{v}: literal text must be produced only by translate_literal and its helpers, "
+                    # a private helper called only from an allowed constructor is part of it
+                    callers = {c.split("::", 1)[1] if c.startswith("prqlc::") else c for c in cg.callers_of(cg.owner_fn(fid)["id"])}
+                    helper = bool(callers) and callers <= allowed[v]
+                    rep.check(owner in allowed[v] or helper, key, f"{owner} constructs sqlparser Value::{v}: literal text must be produced only by translate_literal and its helpers, "
                               f"so that one place decides escaping (allowed: {sorted(allowed[v])})", file=a["file"], line=a["l"], fn=owner)
                 else:
                     rep.ok(key, nontrivial=False)
@@ -199,6 +202,83 @@ def r5(ctx, rep):
                   file=f["file"], line=f["l"], fn=f["path"])
 
 
+# Value::Number sites whose text may come from a signed variable without a local sign split: reviewed, one reason each
+SIGNED_NUMBER_REVIEWED = {
+    "prqlc::sql::gen_expr::expr_of_i64": ("LIMIT operand only (a delimited position); range_of_ranges clamps the limit to >= 0 and the resolver rejects non-positive take ranges",
+                                          {"prqlc::sql::gen_query::translate_select_pipeline"}),
+}
+
+
+def r6(ctx, rep):
+    import guards
+    rep.rule("C08.R6", "a number that can be negative is never emitted as an atom: every Value::Number text is a constant, sign-split, or proven positive by its match arm", floor=4)
+    syn = ctx.syn
+    n_sites = 0
+    for f in syn.fns:
+        if f["crate"] != "prqlc" or "/src/sql/" not in f["file"] or "body" not in f:
+            continue
+        par = None
+        k = 0
+        for n in walk(f["body"]):
+            if not (n.get("k") == "call" and last_seg(show(n["f"])) == "Number" and "Value" in show(n["f"]) and n["a"]):
+                continue
+            n_sites += 1
+            k += 1
+            key = f"number-sign:{f['path']}:{k}"
+            a0 = n["a"][0]
+            base = a0
+            while base.get("k") == "mcall" and base["m"] in ("to_string", "to_owned", "into", "clone"):
+                base = base["r"]
+            if isinstance(lit_val(base), str) and not lit_val(base).startswith("-"):
+                rep.ok(key, nontrivial=False)
+                continue
+            if par is None:
+                par = guards.parents(f["body"])
+            # enclosing match arms
+            why = None
+            cur = n
+            while id(cur) in par and why is None:
+                p = par[id(cur)]
+                if p.get("k") == "match":
+                    arm = next((a for a in p["arms"] if a is cur or a["body"] is cur), None)
+                    if arm is not None:
+                        scrut = show(p["e"])
+                        heads = [(show(a["pat"]), a) for a in p["arms"]]
+                        pt = show(arm["pat"])
+                        # (a) sign split: match X.strip_prefix('-') { Some(abs) => ..abs.., None => ..X.. }
+                        if ".strip_prefix('-')" in scrut:
+                            x = scrut.split(".strip_prefix")[0]
+                            if pt.startswith("Some(") and show(base) == pt[5:-1]:
+                                why = "the text after a stripped `-`"
+                            elif pt == "None" and show(base) == x:
+                                why = "the text when no leading `-` was found"
+                        # (b) positive arm: match v { 0 => .., 1.. => v, _ => -v }
+                        elif arm["pat"].get("k") == "p_range" and show(base) == scrut:
+                            lo = lit_val(arm["pat"].get("s")) if arm["pat"].get("s") is not None else None
+                            if isinstance(lo, int) and lo >= 0 and arm["pat"].get("e") is None:
+                                why = f"`{scrut}` is in `{pt}`"
+                        elif pt == "_" and show(base).replace(" ", "") in (f"(-{scrut})", f"-{scrut}"):
+                            others = [h for h, a in heads if a is not arm]
+                            if "0" in others and any(h.replace(" ", "") in ("1..", "1..=i64::MAX") for h in others):
+                                why = f"`{scrut}` is negative in the remaining arm, so `-{scrut}` is positive"
+                cur = p
+            if why:
+                rep.ok(key, detail=why)
+                continue
+            rv = SIGNED_NUMBER_REVIEWED.get(f["path"])
+            if rv:
+                callers = ctx.cg.callers_of(f["path"])
+                if not callers or not callers <= rv[1]:
+                    rep.bad(key, f"{f['path']} is reviewed as sign-safe only for callers {sorted(rv[1])}; it is now also called from {sorted(callers - rv[1])}", file=f["file"], line=n["l"], fn=f["path"])
+                else:
+                    rep.ok(key, detail="reviewed: " + rv[0])
+                continue
+            rep.bad(key, f"`{show(n, maxdepth=6)}`: the number text can start with `-` and is emitted as an atom (binding strength of a literal), so a prefix minus in front of it yields `--5`, "
+                    "which SQL reads as a comment; split the sign off (see translate_number) or prove the value positive by the enclosing match arm",
+                    file=f["file"], line=n["l"], fn=f["path"])
+    rep.check(n_sites >= 5, "sites", f"expected >= 5 Value::Number construction sites under sql/, found {n_sites}")
+
+
 def run(ctx, rep):
-    for r in (r1, r2, r3, r4, r5):
+    for r in (r1, r2, r3, r4, r5, r6):
         rep.guard(r, ctx)
